@@ -843,6 +843,8 @@ _ASSUME = [
 
 WIT_CLONE_CLOSED = "1 s 0 cn 0 1 cl 0 ts 1 tr 1 ts 2 tr 1 cn 0 2 trb 2 5 ts 3 tr 2 sdr tr 2"
 
+WIT_RXCLOSE_NOWAKE = "2 a 0 mr 0 0 pl 0 1 cl 0 pl 0 1"
+WIT_SENDWAKER = "1 a 0 ts 1 ms 0 2 pl 0 0 ms 1 3 pl 1 1 tr 0 pl 0 0 pl 1 1"
 WIT_REOPEN_TX = "2 s 0 scl tr 0 scv ts 1 tr 0 scl"
 WIT_REOPEN_RX = "2 s 0 cn 0 1 cl 0 cv 0 ts 1 tr 0 cl 0"
 
@@ -856,5 +858,11 @@ PROPS = {
                         "F-spmc-reopen-rx": (_ENG, WIT_REOPEN_RX, "C04:convert-reopens-receiver")},
             "assumptions": _ASSUME,
             "covers": "spmc broadcast: drain-then-Disconnected for every receive form, Disconnected final, Closed with the values handed back after the last receiver, clone isolation, closed handles reject, close idempotent (K2, all histories; full statements for the patched model, `_except_` for the current code)",
+            "engine_info": _INFO},
+    "C06": {"engines": [_ENG],
+            "witness": {"F-spmc-rxclose-nowake": (_ENG, WIT_RXCLOSE_NOWAKE, "C06:rx-close-no-wake"),
+                        "F-spmc-sendwaker": (_ENG, WIT_SENDWAKER, "C06:send-waker-displaced")},
+            "assumptions": _ASSUME,
+            "covers": "spmc broadcast futures (RecvFuture, RecvBatchFuture, SendFuture, SendBatchFuture, SendBatchMutFuture; Stream polls are tied but carry no wake obligation): wake invariant after every history, cancellation harmless (K2); two recorded exceptions",
             "engine_info": _INFO},
 }
